@@ -1,7 +1,8 @@
 #!/usr/bin/env python3
 """Regenerates the TLC configs of RateLimit (run in this directory)."""
-INV = ("TypeOK OneChargePerQuestion DropIsSilent ClientWithinBudget NoSharedBucket RememberedIsOwn ExemptNeverLimited\n"
+INV = ("TypeOK OneChargePerQuestion DropIsSilent ClientWithinBudget NoSharedBucket RememberedIsOwn ExemptNeverLimited InternalNeverLimited\n"
        "  ReplyCookieIsOwn AnswerCarriesCookie BadCookieSound VerifiedIsFree HandoffOnlyInline SameOutcomeAcrossEntries")
+INVCK = INV + " CookieRemembered"   # + the post-Next cookie store, on the configs whose requests carry cookies over both transports
 ACT = "DropLeavesNoTrace EvictionOnlyResets BucketIsolation ExemptUntouched TokensNeverRefillWithoutTime"
 
 
@@ -12,7 +13,8 @@ def S(xs):
 DEF = dict(Procs=[1], Clients=["c1", "c2"], Forms=["v4"], CCs=["a"], SVs=["bare", "good", "bad"], Shorts=[], Protos=["udp", "tcp"],
            Questions=["q1"], Entries=["msg", "wire", "inline"], Exempts=[], Odds=[False], Burst=2, StoreCap=2, EntryBurst=0, BigQs=[],
            MaxOps=3, MaxPend=1, MaxAge=2, TickSet=[1], CleanSet=[2], Atomic="call", KeyByForm=True,
-           ChargeOnReplay=False, EchoCached=False, ReuseEvicted=False, SharedKey=False, ChargeBeforeFit=False)
+           ChargeOnReplay=False, EchoCached=False, ReuseEvicted=False, SharedKey=False, ChargeBeforeFit=False, LimitInternal=False,
+           Aliases=[], AliasTarget="q1")
 
 
 def consts(**kw):
@@ -33,7 +35,8 @@ def consts(**kw):
     return "\n".join(out) + "\n"
 
 
-def mc(name, c, inv=INV, act=ACT):
+def mc(name, c, inv=INV, act=ACT, extra=""):
+    c += extra
     open("MC_%s.cfg" % name, "w").write(c + "SPECIFICATION Spec\nINVARIANTS %s\nPROPERTIES %s\nCHECK_DEADLOCK FALSE\n" % (inv, act))
 
 
@@ -58,19 +61,25 @@ mc("Budget4", consts(Clients=["c1", "c2", "c3"], CCs=[], SVs=[], Protos=["udp"],
                      Exempts=["loopback", "internal"], MaxOps=4, TickSet=[1, 2], CleanSet=[1, 2]))
 # the cookie ladder: two clients, two client cookies, every server half, both transports, malformed cookie, odd packets
 mc("Cookie", consts(CCs=["a", "b"], Shorts=["short"], Odds=[False, True], Questions=["fresh"], Entries=["msg", "inline"], MaxOps=3,
-                    TickSet=[2], CleanSet=[]))
+                    TickSet=[2], CleanSet=[]), inv=INVCK)
 # the edge-cover graph (small: every transition is replayed on the real pipeline)
 mc("Edge", consts(Clients=["c1", "c2"], CCs=["a"], SVs=["bare", "good"], Protos=["udp"], Questions=["q1"], StoreCap=1, MaxOps=3, Burst=1,
                   MaxAge=1, TickSet=[1], CleanSet=[1]))
 mc("EdgeQ", consts(Clients=["c1", "c2"], CCs=["a"], SVs=["bare", "good"], Protos=["udp"], Questions=["q1"], StoreCap=1, MaxOps=2, Burst=1,
                    MaxAge=1, TickSet=[1], CleanSet=[1]))
 mc("EdgeTcp", consts(Clients=["c1"], CCs=["a", "b"], SVs=["bare", "good", "bad"], Protos=["tcp", "udp"], Questions=["fresh"], Entries=["msg", "wire"],
-                     StoreCap=1, MaxOps=3, Burst=1, MaxAge=1, TickSet=[], CleanSet=[]))
+                     StoreCap=1, MaxOps=3, Burst=1, MaxAge=1, TickSet=[], CleanSet=[]), inv=INVCK)
 # per-entry limiter of the cache
 mc("Entry", consts(Clients=["c1", "c2"], CCs=[], SVs=[], Protos=["udp"], Questions=["q1", "q2"], Exempts=["internal"], EntryBurst=1,
                    MaxOps=4, TickSet=[1], CleanSet=[]))
 mc("EntryQ", consts(Clients=["c1"], CCs=[], SVs=[], Protos=["udp"], Questions=["q1", "q2"], Exempts=["internal"], EntryBurst=1,
                     MaxOps=4, TickSet=[1], CleanSet=[]))
+# the chase (gap C17-r3-1): a client's alias question makes the cache chase the CNAME target through its internal Queryer;
+# the target's entry limiter may be empty (client hits) -- the internal sub-query is neither refused nor charged
+CHASE = dict(CCs=[], SVs=[], Protos=["udp"], Questions=["q1", "al1"], Aliases=["al1"], AliasTarget="q1", Exempts=["internal"], EntryBurst=1,
+             Entries=["msg", "wire"], TickSet=[1], CleanSet=[])
+mc("Chase", consts(Clients=["c1", "c2"], MaxOps=5, **CHASE))
+mc("ChaseQ", consts(Clients=["c1"], MaxOps=4, Burst=3, **CHASE))
 # answers that do not fit a plain UDP client: the wire ladder declines before the entry limiter is charged
 BIG = dict(Clients=["c1"], CCs=[], SVs=[], Protos=["udp", "tcp"], Questions=["big1"], BigQs=["big1"], Burst=3, MaxOps=4, TickSet=[1],
            CleanSet=[])
@@ -103,6 +112,14 @@ mc("NegFitCharge", consts(EntryBurst=2, ChargeBeforeFit=True, **dict(BIG, Protos
 mc("NegFitOutcome", consts(EntryBurst=1, ChargeBeforeFit=True, **dict(BIG, Protos=["udp"], MaxOps=3, TickSet=[])))
 mc("NegShared", consts(Clients=["c1", "c2"], CCs=[], SVs=[], Protos=["udp"], Questions=["fresh"], Entries=["msg"], MaxOps=2,
                        TickSet=[], CleanSet=[], SharedKey=True))
+# the wire branch of "mismatched cookie over a stream" without its post-Next store (definition override, not a constant)
+mc("NegWireStore", consts(Clients=["c1"], CCs=["a", "b"], SVs=["bare"], Protos=["tcp"], Questions=["fresh"], Entries=["msg", "wire"],
+                          StoreCap=1, MaxOps=2, Burst=1, MaxAge=1, TickSet=[], CleanSet=[]), inv=INVCK, extra="  WireSkipsStore <- MutOn\n")
+# seeded C17-r3-1: the entry limiter is asked for internal hits too -> an internal request is refused / charged, a chase
+# comes back without its target
+mc("NegInternal", consts(Clients=["c1"], CCs=[], SVs=[], Protos=["udp"], Questions=["q1"], Exempts=["internal"], EntryBurst=1, Entries=["msg"],
+                         MaxOps=3, TickSet=[], CleanSet=[], LimitInternal=True), inv="InternalNeverLimited")
+mc("NegChase", consts(Clients=["c1"], MaxOps=3, Burst=3, LimitInternal=True, **dict(CHASE, Exempts=[], TickSet=[])), inv="InternalNeverLimited")
 # ---- liveness ---------------------------------------------------------------------------------------
 live("Live", consts(Procs=[1, 2], Clients=["c1"], CCs=["a"], SVs=["bare", "good"], Protos=["udp"], Questions=["q1"],
                     Entries=["msg", "inline"], MaxOps=3, MaxPend=2, TickSet=[1], CleanSet=[], Atomic="free"))
@@ -115,6 +132,7 @@ sim("Mixed", consts(Clients=["c1", "c2", "c3"], CCs=["a", "b"], Questions=["q1",
                     MaxOps=16, MaxPend=2, MaxAge=3, TickSet=[1, 2], CleanSet=[1, 2]))
 sim("Entry", consts(Clients=["c1", "c2"], CCs=["a"], SVs=["bare", "good"], Protos=["udp"], Questions=["q1", "q2"], Exempts=["internal"],
                     Burst=3, EntryBurst=2, MaxOps=14, MaxPend=2, TickSet=[1], CleanSet=[]))
+sim("Chase", consts(Clients=["c1", "c2"], Burst=4, MaxOps=14, MaxPend=2, **dict(CHASE, Questions=["q1", "al1", "al2"], Aliases=["al1", "al2"], EntryBurst=2)))
 sim("Forms", consts(Clients=["c1", "c2"], Forms=["v4", "v6m"], CCs=["a"], SVs=["bare", "good"], Protos=["udp"], Questions=["fresh"],
                     Burst=2, StoreCap=4, MaxOps=12, MaxPend=2, TickSet=[1], CleanSet=[]))
 sim("Big", consts(Clients=["c1", "c2"], CCs=[], SVs=[], Protos=["udp", "tcp"], Questions=["big1", "q1"], BigQs=["big1"], Exempts=["internal"],
